@@ -53,3 +53,10 @@ Theorem C06_strquote_refuted :
               Ok {| r_name := bs "m"; r_tags := []; r_fields := [(bs "x", VStr [])]; r_ts := None |} /\
             parse_line dec2f_exact cfg_repaired s = Err.
 Proof. exists (bs "m x=12""3"""). vm_compute. split; reflexivity. Qed.
+
+(* precision s, timestamp 18446744074: the instant is beyond int64 ns; today it wraps to 290448384 ns and is stored *)
+Theorem C06_ts_overflow_refuted :
+  exists s mult, accept_block dec2f_exact cfg_current mult s =
+                   Ok [{| r_name := bs "m"; r_tags := []; r_fields := [(bs "x", VInt 1 1)]; r_ts := Some 290448384 |}] /\
+                 accept_block dec2f_exact cfg_repaired mult s = Err.
+Proof. exists (bs "m x=1i 18446744074"), 1000000000. vm_compute. split; reflexivity. Qed.
